@@ -374,6 +374,17 @@ def _pmul(a, b):
     return r
 
 
+def die_with_parent():
+    """the child is killed when its parent dies (no orphan solvers / workers after a timeout)."""
+    try:
+        import ctypes
+        import signal
+
+        ctypes.CDLL("libc.so.6").prctl(1, signal.SIGKILL)  # PR_SET_PDEATHSIG
+    except Exception:
+        pass
+
+
 class Z3Proc:
     """A persistent `z3 -in` child; one query at a time, `(reset)` between queries, killed on timeout."""
 
@@ -384,7 +395,7 @@ class Z3Proc:
         self.restarts = 0
 
     def _start(self):
-        self.p = subprocess.Popen([self.binary, "-in", "-smt2"], stdin=subprocess.PIPE, stdout=subprocess.PIPE, stderr=subprocess.STDOUT, bufsize=0)
+        self.p = subprocess.Popen([self.binary, "-in", "-smt2"], stdin=subprocess.PIPE, stdout=subprocess.PIPE, stderr=subprocess.STDOUT, bufsize=0, preexec_fn=die_with_parent)
         self._buf = b""
 
     def close(self):
